@@ -550,6 +550,11 @@ def gen_config(seed: int, tier: str = "quick") -> Dict[str, Any]:
     sc["conns"] = conns
     sc["config"]["debug"] = False
     repair_cycles(sc, rng)
+    for c in sc["conns"]:
+        # initial data whose value is None is initial data all the same
+        if c.get("init") and rng.random() < 0.12:
+            k_ = rng.choice(sorted(c["init"]))
+            c["init"] = dict(c["init"], **{k_: None})
     return sc
 
 
@@ -608,6 +613,12 @@ def gen_loop(seed: int, tier: str = "quick") -> Dict[str, Any]:
         sims[0]["beh"]["final_e1"] = True
         sims[0]["beh"]["p_self"] = rng.choice([0.0, 0.0, 1.0])
         conns.append({"src": 0, "se": 1, "dst": 1, "de": 1, "pairs": [["e_out", "t_in"]],
+                      "shift": rng.choice([1, 1, 2]), "weak": False})
+    if (not settled) and (not cross) and rng.random() < 0.2:
+        # the member that closes the loop also triggers member 0 over a second, time-shifted connection
+        # (two trigger connections between one pair, with different delays; either may be made first)
+        sims[0]["n_ent"] = 2
+        conns.append({"src": nmem - 1, "se": 0, "dst": 0, "de": 1, "pairs": [["e_out", "t_in"]],
                       "shift": rng.choice([1, 1, 2]), "weak": False})
     # hybrids on the loop step at time 0 by themselves; make their persistent output harmless
     # extras
